@@ -153,6 +153,21 @@ class C16:
             out["mesh_centers00"] = [nrs(np.asarray(m).ravel()[0]) for m in mesh]
             wm = h.get_bin_widths()
             out["mesh_widths_last"] = [nrs(np.asarray(m).ravel()[-1]) for m in wm]
+        # additivity under merging: merge_bins(2) along every axis, on a copy
+        out["merged"] = []
+        for a in range(len(pairs)):
+            if len(pairs[a]) < 2:
+                continue
+            try:
+                m = h.merge_bins(2, axis=a) if len(pairs) > 1 else h.merge_bins(2)
+            except Exception as e:
+                out["merged"].append({"axis": a, "ret": "REFUSED", "why": f"{type(e).__name__}: {e}"[:120]})
+                continue
+            mb = [np.asarray(m.bins).reshape(-1, 2)] if len(pairs) == 1 else [np.asarray(b).reshape(-1, 2) for b in m.bins]
+            out["merged"].append({"axis": a, "ret": "ok", "bins": [[nrs(l), nrs(r)] for l, r in mb[a]],
+                                  "sizes": [nrs(x) for x in np.asarray(m.bin_sizes).ravel()],
+                                  "shape": list(np.asarray(m.bin_sizes).shape),
+                                  "total_measure": nrs(m.total_width if len(pairs) == 1 else m.total_size)})
         return {"outs": out, "log": []}
 
     def model_case(self, case, io):
@@ -203,6 +218,41 @@ class C16:
                    "SphericalSurfaceHistogram": 4 * math.pi, "SphericalHistogram": 4 / 3 * math.pi * R ** 3}.get(case["class"])
             if exp is not None and axes[0][0][0] == 0.0 and not tol(total_measure, exp) and abs(total_measure - exp) > 1e-9:
                 fails.append(f"full_range_total: the bin measures sum to {total_measure}, expected {exp}")
+        # additivity: merging runs of two adjacent bins along an axis adds their measures (and is refused across a gap)
+        for mg in o.get("merged", []):
+            a = mg["axis"]
+            ax = axes[a]
+            runs = [ax[i:i + 2] for i in range(0, len(ax), 2)]
+            gap = any(len(r) == 2 and r[0][1] != r[1][0] for r in runs)
+            if mg["ret"] != "ok":
+                if not gap:
+                    fails.append(f"merge_refused: merging adjacent bins of axis {a} was refused: {mg['why']}")
+                continue
+            if gap:
+                fails.append(f"merged_across_gap: axis {a}: a run of two bins that do not touch was merged into one bin "
+                             f"(its measure is no longer the sum of the parts)")
+                continue
+            want_bins = [(r[0][0], r[-1][1]) for r in runs]
+            got_bins = [(float(Fraction(l)), float(Fraction(r))) for l, r in mg["bins"]]
+            if got_bins != want_bins:
+                fails.append(f"merged_edges: axis {a}: merged bins {got_bins}, expected {want_bins}")
+                continue
+            # measure of every merged cell = sum of the measures of its parts
+            shp = list(case["shape"]); arr = np.array(bs).reshape(shp)
+            idx = [slice(None)] * len(shp)
+            parts = []
+            for i in range(0, shp[a], 2):
+                idx[a] = slice(i, i + 2)
+                parts.append(arr[tuple(idx)].sum(axis=a))
+            want = np.stack(parts, axis=a).ravel()
+            got = np.array([float(Fraction(x)) for x in mg["sizes"]])
+            if got.shape != want.shape or not all(tol(x, y) or abs(x - y) <= 1e-9 for x, y in zip(got, want)):
+                fails.append(f"merge_additive: axis {a}: measures of the merged bins {got.tolist()[:6]} are not the sums of their parts {want.tolist()[:6]}")
+            if len(axes) > 1 or case["class"] != "RadialHistogram":
+                tm = float(Fraction(mg["total_measure"]))
+                tm0 = float(Fraction(o[key]))
+                if not tol(tm, tm0) and abs(tm - tm0) > 1e-9:
+                    fails.append(f"merge_total_measure: axis {a}: {key} changed from {tm0} to {tm} by merging")
         # edges / centres / widths
         L = [o["left"]] if len(axes) == 1 else o["left"]
         Rr = [o["right"]] if len(axes) == 1 else o["right"]
